@@ -6,7 +6,7 @@ LEVEL = "fault_enumeration"
 EXHAUSTIVE = {"quick": True, "thorough": True}
 RULE = ("DIRTY: real git repositories. The full matrix of every status git can report for a file (clean, modified unstaged / "
         "staged / both, added, added+modified, deleted unstaged / staged, renamed, untracked) x {file carrying a version "
-        "pattern, unrelated file} x --allow-dirty on/off is enumerated completely (60 cases, each with four sets of unrelated flags: none, --ignore-vcs-tag, --tag-scope branch, --pin-increments = 240 runs), followed by seeded combinations "
+        "pattern, unrelated file} x --allow-dirty on/off is enumerated completely (100 cases incl. a pattern file with a name git prints quoted and one listed under a non-normalised key `./sub/b.txt`, each with four sets of unrelated flags: none, --ignore-vcs-tag, --tag-scope branch, --pin-increments = 400 runs), followed by seeded combinations "
         "of 2..3 dirty files (quick 80, thorough 100,000). The status text is what real `git status --porcelain` prints (checked "
         "against the expected XY columns). Oracle: statement predicates on exit code, file bytes, HEAD and tags; content of the "
         "bump commit from `git show`. distinct_nontrivial = distinct (set of (status, target), allow-dirty) combinations.")
